@@ -296,6 +296,7 @@ impl Run {
             chunk: cfg.chunk.max(1) as u64,
             prune_keep: cfg.prune_keep.map(|k| k as u64),
         };
+        crate::sut::create_empty_db(&db).expect("create database");
         let sut = Sut::open(&db, node.clone(), &stack).expect("open database");
         Run {
             scratch,
@@ -459,7 +460,10 @@ impl Run {
         };
         let node = Node::shared(world);
         node.lock().unwrap().idle = Idle::NewBlock;
-        let sut = Sut::open(&db, node, &self.stack).expect("open fresh database");
+        // one scan, one batch, one chunk: the most trivial history (pruning as configured)
+        let stack = StackCfg { max_per_poll: 100_000, chunk: 1_000_000, prune_keep: self.stack.prune_keep };
+        crate::sut::create_empty_db(&db).expect("create fresh database");
+        let sut = Sut::open(&db, node, &stack).expect("open fresh database");
         sut.import(t).await.unwrap_or_else(|e| panic!("import of the plain canonical chain into a fresh database failed: {e:?}"));
         let dump = sut.dump().await.expect("dump fresh");
         let ctx_root = sut.ctx_root(t).await.map_err(|e| format!("{e:#}"));
@@ -959,5 +963,6 @@ pub fn run(args: &Args) -> i32 {
         check.witness(key, what, || matches!(run_case(&case).outcome, vcore::Outcome::Violation { key: k, .. } if k == key));
     }
 
+    crate::sut::remove_template_db();
     check.finish()
 }
